@@ -159,7 +159,8 @@ let parse_sub () = match next () with
   | "MI" -> let a = parse_idx () in let b = parse_idx () in let pa = next_bool () in let cm = next_bool () in ModifyIndex (a, b, pa, cm)
   | "MF" -> let a = parse_fk () in let b = parse_fk () in ModifyForeignKey (a, b)
   | "APK" -> AddPrimaryKey | "DPK" -> DropPrimaryKey | "MPK" -> ModifyPrimaryKey
-  | "TC" -> TableComment
+  | "TC" -> TableComment false
+  | "TCA" -> TableComment true
   | s -> failwith ("sub " ^ s)
 let parse_change_s () = match next () with
   | "AT" -> AddTable (parse_tab ())
